@@ -249,6 +249,8 @@ var mutations = []mutation{
 	// empty values of either kind (nil pointers), kind changes
 	{"to-empty-string", func(x *Item, root bool) bool { return !root }, func(r *vf.Rng, x *Item) { *x = Item{B: []byte{}} }},
 	{"to-empty-list", func(x *Item, root bool) bool { return !root }, func(r *vf.Rng, x *Item) { *x = Item{IsList: true} }},
+	{"flip-empty-kind", func(x *Item, root bool) bool { return !root && ((x.IsList && len(x.L) == 0) || (!x.IsList && len(x.B) == 0)) },
+		func(r *vf.Rng, x *Item) { *x = Item{IsList: !x.IsList, B: []byte{}} }},
 	{"wrap-in-list", isStr, func(r *vf.Rng, x *Item) { *x = Item{IsList: true, L: []*Item{{B: x.B}}} }},
 	{"unwrap-list", func(x *Item, root bool) bool { return x.IsList && len(x.L) == 1 }, func(r *vf.Rng, x *Item) { *x = *x.L[0] }},
 	// list structure
